@@ -33,7 +33,7 @@ CHECKS = {
                       [e1("pool", "prog")], "§4 C01"),
     "C02": pool_check("Task-set wait is a completion barrier",
                       "Programs with TaskSet / ConcurrentTaskSet (light, heavy), single/bulk/FQ submissions, shared sets, nested sets and parallel_for; at the return of every wait(), tryWait()==true and destructor all tasks submitted before have finished, each body ran once.",
-                      [e1("pool", "prog")], "§4 C02"),
+                      [e1("pool", "prog"), e1("pool", "forkjoin")], "§4 C02"),
     "C03": pool_check("Pool resize never loses, duplicates or strands work",
                       "C02-style programs with a concurrent resizer thread (grow, shrink, zero); ledger + barrier + termination oracle (explorer deadlock report, fair-schedule livelock confirmation).",
                       [e1("pool", "prog")], "§4 C03"),
